@@ -284,6 +284,28 @@ func c14different(g *docgen, c c14case) []c14case {
 		su.set("newdim", dList(dStr("x")))
 		return true
 	})
+	// an unknown key of the matrix itself added, changed or removed (the matrix is signed with its extra keys)
+	add(func(n *c14case) bool {
+		m := n.doc.get("matrix")
+		if m == nil || m.kind != 'm' || m.has("zz_added_key") {
+			return false
+		}
+		m.set("zz_added_key", dStr("v"))
+		return true
+	})
+	add(func(n *c14case) bool {
+		m := n.doc.get("matrix")
+		if m == nil || m.kind != 'm' {
+			return false
+		}
+		for i := range m.m {
+			if k := m.m[i].k; k != "setup" && k != "adjustments" {
+				m.m[i].v = dStr("changed-extra-value")
+				return true
+			}
+		}
+		return false
+	})
 	for ai := 0; ai < 2; ai++ {
 		for wi := 0; wi < 3; wi++ {
 			ai, wi := ai, wi
